@@ -37,6 +37,10 @@ type Timer struct {
 	// This ensures that we do not schedule the timer again if the ScheduleRepeating
 	// callback cancelled the timer.
 	cancelled bool
+
+	// Incremented by every Cancel. `cancelled` is reset by any subsequent schedule call, so a repeating callback that
+	// cancels its timer and then schedules something (e.g. ScheduleOnce(0, ...)) would otherwise go unnoticed.
+	cancellations uint64
 }
 
 func NewTimer(ioc *IO) (*Timer, error) {
@@ -94,13 +98,16 @@ func (t *Timer) ScheduleRepeating(repeat time.Duration, cb func()) error {
 	} else {
 		var ccb func()
 		ccb = func() {
+			cancellations := t.cancellations
 			cb()
 			if t.cancelled {
 				t.cancelled = false
-			} else {
+			} else if t.cancellations == cancellations {
 				// TODO this error should not be ignored
 				_ = t.ScheduleOnce(repeat, ccb)
 			}
+			// Otherwise the callback cancelled its own timer and then scheduled something else (which reset
+			// `cancelled`): whatever that was, this repeating schedule is over.
 		}
 
 		return t.ScheduleOnce(repeat, ccb)
@@ -121,6 +128,7 @@ func (t *Timer) Cancel() error {
 	err := t.it.Unset()
 	if err == nil {
 		t.cancelled = true
+		t.cancellations++
 		t.state = stateReady
 	}
 	return err
